@@ -393,10 +393,23 @@ func writeReplay(dir, prop string, o *Obligation, why string) string {
 	if o.Result == "sat" && o.Expect == "unsat" {
 		status = "model-not-replayed"
 	}
+	// a replay registered for this obligation runs a test against the real code of the tree under check
+	replayCmd, replayOut, reproduced := runRegisteredReplay(prop, o.Name)
+	if replayCmd != "" {
+		if reproduced {
+			status = "reproduced on the real code: the registered replay fails on this tree"
+		} else if status == "model-not-replayed" {
+			status = "model-not-replayed (the registered replay passes on this tree: the failing input is another one)"
+		}
+	}
 	rep := map[string]any{
 		"property": prop, "obligation": o.Name, "kind": o.Kind, "function": o.Func, "position": o.Pos, "clause": o.Text,
 		"solver_result": o.Result, "backend": o.Backend, "seconds": o.Seconds, "smt_file": o.File, "why": why,
 		"solver_output": truncate(o.Raw, 4000), "model": o.Values, "replay_status": status,
+	}
+	if replayCmd != "" {
+		rep["replay_command"] = replayCmd
+		rep["replay_output"] = truncate(replayOut, 6000)
 	}
 	b, _ := json.MarshalIndent(rep, "", " ")
 	_ = os.WriteFile(fn, b, 0o644)
@@ -405,6 +418,42 @@ func writeReplay(dir, prop string, o *Obligation, why string) string {
 		line += " no-failing-input-found"
 	}
 	return line
+}
+
+var replayVerifDir = "/verif"
+
+// runRegisteredReplay looks the obligation up in /verif/replays.json and runs the registered test against the real code.
+// reproduced is true when the test fails (exit status != 0), i.e. the violation shows on the real code.
+func runRegisteredReplay(prop, obligation string) (cmdS, out string, reproduced bool) {
+	data, err := os.ReadFile(filepath.Join(replayVerifDir, "replays.json"))
+	if err != nil {
+		return "", "", false
+	}
+	var cfg struct {
+		Replays []struct {
+			Property string   `json:"property"`
+			Prefixes []string `json:"prefixes"`
+			Cmd      []string `json:"cmd"`
+		} `json:"replays"`
+	}
+	if json.Unmarshal(data, &cfg) != nil {
+		return "", "", false
+	}
+	for _, r := range cfg.Replays {
+		if r.Property != prop || len(r.Cmd) == 0 {
+			continue
+		}
+		for _, pf := range r.Prefixes {
+			if strings.HasPrefix(obligation, pf) {
+				cmd := exec.Command(r.Cmd[0], r.Cmd[1:]...)
+				cmd.Dir = replayVerifDir
+				cmd.Env = os.Environ()
+				b, err := cmd.CombinedOutput()
+				return strings.Join(r.Cmd, " "), string(b), err != nil
+			}
+		}
+	}
+	return "", "", false
 }
 
 func truncate(s string, n int) string {
